@@ -541,6 +541,12 @@ def r_delay(E):
             steps, delays = _fxd(z.args[0], fn), _fxd(z.args[1], fn)
             if not norm(steps).endswith(".uj_steps"):
                 continue
+            if isinstance(delays, ast.Call) and isinstance(delays.func, ast.Attribute) and norm(delays.func.value) in ("self", "cls"):
+                # the running totals built by a small helper of the class: read as the expression it returns
+                from ..astutil import inline_call_expr as _ice
+                inl = _ice(delays, pm.helper_finder("JobBase"))
+                if inl is not None:
+                    delays = inl
             if not (isinstance(delays, ast.Call) and isinstance(delays.func, ast.Name) and delays.func.id == "accumulate"
                     and delays.args):
                 continue
